@@ -70,6 +70,15 @@ type itemErr struct{ name string }
 
 func (e *itemErr) Error() string { return "ITEM<" + e.name + ">" }
 
+// Unwrap: every other error item wraps io.EOF (an error item is an item like any other, also
+// when errors.Is(err, io.EOF) holds for it; only the bare io.EOF ends a stream).
+func (e *itemErr) Unwrap() error {
+	if len(e.name) > 0 && (e.name[len(e.name)-1]-'0')%2 == 1 {
+		return io.EOF
+	}
+	return nil
+}
+
 type claim struct {
 	obs  []string
 	eof  bool
@@ -838,7 +847,7 @@ func (n *node) untag(y string) (string, bool) {
 func init() {
 	core.Register(&core.Profile{
 		RaceQuick: 200, RaceThorough: 3000, ID: "C08", Engine: "streamsim", Run: RunOnce, Quick: 6000, Thorough: 150000, ThoroughSeeds: 3,
-		Rule:   "each run draws an operator tree (1-3+ sources: Pipe cap 0-3 or array, up to 6 copy/convert/merge operations incl. the >5-source reflect.Select path and converts that skip, fail or panic inside a forwarder), producer tasks and one consumer task per leaf (reads k items or to EOF, then closes), and one schedule; a run is non-trivial when >=2 tasks were live and >=1 step had >=2 candidates; distinct = distinct (plan hash, schedule signature)",
+		Rule:   "each run draws an operator tree (1-3+ sources: Pipe cap 0-3 or array, up to 6 copy/convert/merge operations incl. the >5-source reflect.Select path and converts that skip, fail or panic inside a forwarder), producer tasks and one consumer task per leaf (reads k items or to EOF, then closes), and one schedule; a run is non-trivial when >=2 tasks were live and >=1 step had >=2 candidates; distinct = distinct (plan hash, schedule signature); array sources are adjacent sub-slices of one batch (spare capacity overlapping the neighbour) or exact slices; every other error item wraps io.EOF",
 		Real:   []string{"schema/stream.go", "schema/select.go (blocking and single-ready cases)", "Go runtime channels, sync.Once, atomics"},
 		Stub:   []string{"producers and consumers (harness tasks)", "convert functions", "multi-ready select choice (ready-poll seam)"},
 		Faults: []string{"early reader close", "error items", "convert error", "convert panic in forwarder", "stubborn producer", "schedule perturbation"},
